@@ -69,6 +69,7 @@ class Ctx(object):
         self.extra = {}
         self.known = load_known(prop)
         self._suppressed = set()
+        self._own_suppressed = set()
         # triggers of open findings owned by this property, and of open
         # findings of other properties that list this one under "affects"
         # (one root cause, one property: DESIGN 2.7)
@@ -76,6 +77,8 @@ class Ctx(object):
             if e.get('status') == 'open' and (
                     e.get('property') == prop or prop in e.get('affects', [])):
                 self._suppressed.update(e.get('suppress', []))
+                if e.get('property') == prop:
+                    self._own_suppressed.update(e.get('suppress', []))
         self.canary_results = {}
         self.replaying = replay
 
